@@ -373,6 +373,19 @@ def first_search(fn, var, funcs, depth=0):
     defs = single_defs(fn)
     # (1) the inline while loop
     for w in [n for n in ast.walk(fn) if isinstance(n, ast.While)]:
+        if isinstance(w.test, ast.Constant) and w.test.value is True and len(w.body) == 2 and isinstance(w.body[0], ast.If) \
+                and len(w.body[0].body) == 1 and isinstance(w.body[0].body[0], ast.Break) and not w.body[0].orelse:
+            # `while True: if <stop test>: break; t += 1`
+            bt = _beta_test(w.body[0].test, defs)
+            inc = w.body[1]
+            init = [n for n in ast.walk(fn) if isinstance(n, ast.Assign) and len(n.targets) == 1 and isinstance(n.targets[0], ast.Name)
+                    and n.targets[0].id == var]
+            if bt is not None and isinstance(bt[0].args[1], ast.Name) and bt[0].args[1].id == var and isinstance(inc, ast.AugAssign) \
+                    and isinstance(inc.target, ast.Name) and inc.target.id == var and isinstance(inc.op, ast.Add) \
+                    and isinstance(inc.value, ast.Constant) and inc.value.value == 1 and len(init) == 1 \
+                    and isinstance(init[0].value, ast.Constant) and init[0].value.value == 0:
+                return bt[0].args[0], bt[1], bt[2], w, f"while True: if {ast.unparse(w.body[0].test)}: break"
+            continue
         bt = _beta_test(w.test, defs)
         if bt is None or not (isinstance(bt[0].args[1], ast.Name) and bt[0].args[1].id == var):
             continue
@@ -428,6 +441,14 @@ def search_value(e, fn, funcs, depth=0):
             return B().visit(_c.deepcopy(A)), op, B().visit(_c.deepcopy(R)), e, f"{ast.unparse(e)} with {h.name}: {shown}"
         return None, f"helper {e.func.id} not of a recognised form"
     return None, f"unrecognised search {ast.unparse(e)[:60]}"
+
+
+def _int_const(e):
+    if isinstance(e, ast.Constant) and isinstance(e.value, int) and not isinstance(e.value, bool):
+        return e.value
+    if isinstance(e, ast.UnaryOp) and isinstance(e.op, ast.USub) and isinstance(e.operand, ast.Constant) and isinstance(e.operand.value, int):
+        return -e.operand.value
+    return None
 
 
 def form(chk, repo):
@@ -526,10 +547,10 @@ def form(chk, repo):
     gdef = None
     if not gok and len(guard) == 1 and isinstance(guard[0].test, ast.Compare) and len(guard[0].test.ops) == 1 \
             and isinstance(guard[0].test.left, ast.Name) and guard[0].test.left.id == y \
-            and isinstance(guard[0].test.comparators[0], ast.Constant) and isinstance(guard[0].test.comparators[0].value, int) \
+            and _int_const(guard[0].test.comparators[0]) is not None \
             and len(guard[0].body) == 1 and isinstance(guard[0].body[0], ast.Return) \
             and isinstance(guard[0].body[0].value, ast.Constant) and guard[0].body[0].value.value == 0:
-        c_, op_ = guard[0].test.comparators[0].value, type(guard[0].test.ops[0])
+        c_, op_ = _int_const(guard[0].test.comparators[0]), type(guard[0].test.ops[0])
         # the values of y for which 0 is returned must be exactly the negative ones
         bound = {ast.Lt: c_ - 1, ast.LtE: c_}.get(op_)
         if bound is not None:
@@ -538,6 +559,15 @@ def form(chk, repo):
                "beta(x, y) = 0 for y < 0" + ("" if gok or not gdef else f": the guard `{ast.unparse(guard[0].test)}` returns 0 for other values of y "
                                              "as well (beta(x, 0) is 1)"), rel=relb, node=bfn, nontrivial=False)
     main = [r for r in rets if not (isinstance(r.value, ast.Constant))]
+    # single-definition locals of beta (numerator / denominator) stand for their definitions
+    bdefs = {}
+    for a_ in ast.walk(bfn):
+        if isinstance(a_, ast.Assign) and len(a_.targets) == 1 and isinstance(a_.targets[0], ast.Name):
+            bdefs.setdefault(a_.targets[0].id, []).append(a_.value)
+    bdefs = {k: v[0] for k, v in bdefs.items() if len(v) == 1 and k not in (x, y)}
+    if main and bdefs:
+        import copy as _c
+        main = [ast.Return(subst_defs(_c.deepcopy(main[0].value), bdefs))]
     fok = None
     if len(main) == 1 and isinstance(main[0].value, ast.BinOp) and isinstance(main[0].value.op, (ast.Div, ast.FloorDiv)):
         num, den = main[0].value.left, main[0].value.right
